@@ -1,6 +1,7 @@
 #!/bin/bash
-# Run once after a fresh restore, offline: gate on forbidden Coq constructs, build the
-# whole Coq development (full .vo build), build the Go harness against /repo.
+# Run once after a fresh restore, offline: gate on forbidden Coq constructs, build the Go
+# harness against /repo, regenerate the translator output (coq/Gen), build the whole Coq
+# development (full .vo build).
 set -e
 cd "$(dirname "$0")"
 export GOFLAGS=-mod=mod GOPROXY=off GOSUMDB=off GOTOOLCHAIN=local
@@ -8,13 +9,16 @@ export GOFLAGS=-mod=mod GOPROXY=off GOSUMDB=off GOTOOLCHAIN=local
 if grep -rnE '\b(Admitted|admit|Axiom|Parameter|Conjecture|Admit Obligations)\b|Unset Guard|bypass_check|Unset Positivity|Unset Universe|type-in-type|impredicative-set' coq --include='*.v' | grep -v '^coq/Cases/' | grep -vE '\(\*.*(Admitted|admit|Axiom|Parameter).*\*\)' ; then
   echo "forbidden construct found in the Coq development" >&2; exit 1
 fi
-# 2. Coq
-cd coq
-coq_makefile -f _CoqProject -o Makefile > /dev/null
-timeout 3400 make -j16 > ../.work.setup.log 2>&1 || { tail -50 ../.work.setup.log; exit 1; }
-cd ..
-mkdir -p .work/bin && mv .work.setup.log .work/setup.log
-# 3. harness
+# 2. harness
+mkdir -p .work/bin
 cp /repo/go.sum harness/go.sum
 (cd harness && go build -tags verif -o ../.work/bin/harness .)
+# 3. translator: grammar + action table of the current /repo
+.work/bin/harness grammar > .work/grammar.json
+python3 tools/gen_grammar.py .work/grammar.json coq/Gen/Grammar.v > .work/gen.log
+# 4. Coq
+cd coq
+coq_makefile -f _CoqProject -o Makefile > /dev/null
+timeout 3400 make -j16 > ../.work/setup.log 2>&1 || { tail -50 ../.work/setup.log; exit 1; }
+cd ..
 echo "setup ok"
